@@ -311,8 +311,10 @@ class World:
     def encode(spec, v):
         return (spec.get("prefix") or "") + "%02x" % v
 
-    def evaluate(self, key, memo=None, stack=None, edges=None):
-        """Clean value (hex) of key in the current external state. Raises Cycle."""
+    def evaluate(self, key, memo=None, stack=None, edges=None, skip_single=False):
+        """Clean value (hex) of key in the current external state. Raises Cycle.
+        skip_single: ignore single-use edges (they never feed a value and the
+        engine, by design, does not follow them for a rule it does not execute)."""
         if memo is None:
             memo = {}
         if stack is None:
@@ -334,10 +336,12 @@ class World:
             if i["src"] >= 0:
                 if i["src"] not in vals or vals[i["src"]] % i["mod"] != i["rem"]:
                     continue
+            if skip_single and i["mode"] == "s":
+                continue
             requested.append(idx)
             if edges is not None:
                 edges.setdefault(key, []).append((i["key"], i["mode"]))
-            v = self.evaluate(i["key"], memo, stack, edges)
+            v = self.evaluate(i["key"], memo, stack, edges, skip_single)
             if i["mode"] == "r":
                 vals[idx] = int(v[-2:], 16)
                 total += i["w"] * vals[idx]
@@ -456,3 +460,66 @@ def replay_world(case):
         elif o == "undef":
             w.program.pop(op["key"], None)
         yield i, op, w
+
+
+# ------------------------------------------------------------------ trace summaries
+
+
+def summarize_build(b):
+    s = {"created": {}, "tid2key": {}, "requests": {}, "discs": {}, "completes": {}, "status": [],
+         "complete_status": [], "uptodate": [], "cycles": [], "errors": [], "deadlock": False,
+         "cancelled": False, "needs": {}, "invalid": set(), "provides": [], "result": None,
+         "ended": b["end"] is not None, "destroyed": set()}
+    for ev in b["events"]:
+        tag = ev[0]
+        if tag == "create":
+            s["created"][ev[1]] = ev[2]
+            s["tid2key"][ev[2]] = ev[1]
+            s["requests"][ev[1]] = []
+            s["discs"][ev[1]] = []
+        elif tag == "request":
+            s["requests"][s["tid2key"][ev[1]]].append((ev[2], ev[3], int(ev[4])))
+        elif tag == "disc":
+            s["discs"][s["tid2key"][ev[1]]].append(ev[2])
+        elif tag == "complete":
+            s["completes"][s["tid2key"][ev[1]]] = (ev[2], ev[3] == "1")
+        elif tag == "status":
+            s["status"].append((ev[1], int(ev[2])))
+            if ev[2] == "2":
+                s["complete_status"].append(ev[1])
+            elif ev[2] == "1":
+                s["uptodate"].append(ev[1])
+        elif tag == "cycle":
+            s["cycles"].append(list(ev[1:]))
+        elif tag == "error":
+            s["errors"].append(unhx(ev[1]).decode("latin-1"))
+        elif tag == "deadlock":
+            s["deadlock"] = True
+        elif tag == "cancel-issued":
+            s["cancelled"] = True
+        elif tag == "needs":
+            s["needs"][ev[1]] = (int(ev[2]), ev[3])
+        elif tag == "valid" and ev[2] == "0":
+            s["invalid"].add(ev[1])
+        elif tag == "provide":
+            s["provides"].append((s["tid2key"].get(ev[1]), int(ev[2]), ev[3], "" if ev[4] == "-" else ev[4]))
+        elif tag == "destroy":
+            s["destroyed"].add(ev[1])
+    if b["end"] is not None:
+        r = b["end"].get("result", "-")
+        s["result"] = "" if r == "-" else r
+    return s
+
+
+class DepLedger:
+    """Recorded dependencies of each rule's last *completed* execution, as an
+    observer can know them from the trace (set semantics + flags)."""
+
+    def __init__(self):
+        self.deps = {}
+
+    def update(self, summary):
+        for k in summary["complete_status"]:
+            fl = {"r": 0, "m": 1, "s": 2}
+            self.deps[k] = [(key, fl[mode]) for key, mode, _ in summary["requests"].get(k, [])] + \
+                           [(d, 0) for d in summary["discs"].get(k, [])]
